@@ -69,6 +69,7 @@ func runC15(c *Ctx) {
 	c.rule("errors-propagate", "every error returned to the parse package by strconv / the scanner / Unquote / a callback is tested and leads to a non-nil error result (no path returns a value together with a swallowed error)", 15)
 	c.rule("syntax-agree", "writers (flag helpers' String) quote with strconv.Quote and separate with ',' (and ':' for maps); readers unquote with strconv.Unquote and split on the same runes; unsigned slices are formatted with FormatUint and parsed with ParseUint, signed ones with FormatInt/ParseInt, base 10 out / base 0 in", 8)
 	c.rule("empty-forms", "the empty string is a legitimate map key (the splitter never tests the key text against \"\" to decide whether a key was read) and the empty text is the canonical form of an empty collection (strings.Split-based parsers answer it with an empty result)", 3)
+	c.rule("quoted-through-unquote", "in both splitters the text of a quoted literal reaches the result only as strconv.Unquote of the token text; the raw token text is used only for tokens that are not quoted literals", 4)
 	c.rule("single-token-per-part", "in the map splitter a token's text is stored into the key (value) state only while that part's already-read flag is false, and the store sets the flag: a second token for the same part is an error, never a silent replacement (an unparsable value is an error rather than a truncated one)", 2)
 	c.rule("error-not-value", "(shared with C12) when the flag source detects an out-of-range or unconvertible flag value its Value returns the error and not a config", 1)
 	c.rule("pair-state-reset", "after the map splitter hands a (key, value) pair to its callback, both pieces of state are reset to \"\" on every path that continues parsing (a value must not leak into a later key that has none)", 2)
@@ -82,6 +83,7 @@ func runC15(c *Ctx) {
 	}
 	c15PairStateReset(c, "pair-state-reset")
 	c15SingleTokenPerPart(c, "single-token-per-part")
+	c15QuotedThroughUnquote(c, "quoted-through-unquote")
 	c15EmptyForms(c, "empty-forms")
 
 	// ---- parse-args ------------------------------------------------------------------
@@ -968,4 +970,93 @@ func flowsIntoPhi(a, b *ssa.Phi) bool {
 		return false
 	}
 	return walk(b)
+}
+
+// c15QuotedThroughUnquote: in both splitters a token's text reaches the parsed result either raw - only for tokens
+// that are not quoted literals - or as the result of strconv.Unquote of that text. Any other transformation of a
+// quoted literal (trimming the delimiters by hand) does not invert strconv.Quote for every string.
+func c15QuotedThroughUnquote(c *Ctx, rule string) {
+	w := c.W
+	for _, fname := range []string{"splitStringsSlice", "splitMap"} {
+		f := w.fn("parse", fname)
+		if !c.need(f != nil, "parse."+fname) {
+			continue
+		}
+		isTok := func(v ssa.Value) bool {
+			ph, ok := v.(*ssa.Phi)
+			if !ok {
+				return false
+			}
+			for _, e := range ph.Edges {
+				call, ok := e.(*ssa.Call)
+				if !ok || !strings.HasSuffix(calleeFullName(call), "scanner.Scanner).Scan") {
+					return false
+				}
+			}
+			return len(ph.Edges) > 0
+		}
+		var tokPhi *ssa.Phi
+		for _, i := range allInstrs(f) {
+			if ph, ok := i.(*ssa.Phi); ok && isTok(ph) {
+				tokPhi = ph
+			}
+		}
+		if tokPhi == nil {
+			c.undecided(rule, relName(f), f.Pos(), "the scanner token is not a loop-carried result of Scan()")
+			continue
+		}
+		pb := &predBuilder{name: func(v ssa.Value) string {
+			if v == ssa.Value(tokPhi) {
+				return "tok"
+			}
+			return ""
+		}}
+		isTokenText := func(v ssa.Value) bool {
+			call, ok := v.(*ssa.Call)
+			return ok && strings.HasSuffix(calleeFullName(call), "scanner.Scanner).TokenText")
+		}
+		isUnquoted := func(v ssa.Value) bool {
+			ex, ok := v.(*ssa.Extract)
+			if !ok || ex.Index != 0 {
+				return false
+			}
+			call, ok := ex.Tuple.(*ssa.Call)
+			return ok && calleeFullName(call) == "strconv.Unquote" && isTokenText(call.Call.Args[0])
+		}
+		n, nUnq := 0, 0
+		for _, i := range allInstrs(f) {
+			ph, ok := i.(*ssa.Phi)
+			if !ok || !derivesTokenText(ph) {
+				continue
+			}
+			for ei, e := range ph.Edges {
+				name := relName(f) + "#text#" + itoa(n+1)
+				switch {
+				case isUnquoted(e):
+					n++
+					nUnq++
+					c.ok(rule, name, e.(*ssa.Extract).Tuple.Pos(), "a quoted literal's text is the result of strconv.Unquote")
+				case isTokenText(e):
+					n++
+					g := pb.pathCondEdge(tokPhi.Block(), ph.Block().Preds[ei], ph.Block())
+					_, counter := forAll(g, map[string][]int64{"tok": {-2, -3, -4, -5, -6, -7, -8, 44, 58}}, func(en env, fv bool) bool {
+						return !fv || (en.I["tok"] != -6 && en.I["tok"] != -7)
+					})
+					c.check(counter == "", rule, name, e.Pos(), "the raw token text is used only for tokens that are not quoted literals", "the raw text of a quoted literal (delimiters and escapes included) can reach the result: "+counter)
+				default:
+					if _, isPhi := e.(*ssa.Phi); isPhi {
+						continue // merged elsewhere: that phi is checked on its own
+					}
+					if s, ok := constString(e); ok && s == "" {
+						continue
+					}
+					n++
+					c.bad(rule, name, ph.Pos(), "a token's text reaches the result as %s instead of strconv.Unquote of the literal: hand-made unquoting does not invert strconv.Quote for every string (a string that itself starts or ends with a delimiter character loses it)", canon(e))
+				}
+			}
+		}
+		if nUnq == 0 {
+			c.bad(rule, relName(f), f.Pos(), "no quoted literal goes through strconv.Unquote")
+		}
+	}
 }
